@@ -198,6 +198,17 @@ CLAIMED["C16"] = dict(
          "(float)->float, the types of the core fragment.",
     technique="TLA+ renaming invariance checked with TLC; source-level transformations replayed next to the original with lock-step trace validation",
 )
+CLAIMED["C18"] = dict(
+    category="translation_validation",
+    text="Lang.tla (the definitional evaluator checked with TLC) gives the expected samples of every LangGen program of the budget; "
+         "each program goes through Context::emit_rust, the emitted source is completed with a host that supplies now and "
+         "samplerate as the driver does, built with rustc and run, and the (VM run, Rust run) pair is validated by Lockstep.tla in "
+         "subset mode: the generator may refuse a program, anything else it does must match the VM bit for bit, sample by sample. "
+         "Shipped fixtures, examples and systematic mutants of them go through the same trace specification.",
+    design_ref="DESIGN.md §6 C18",
+    note="No plugins are loaded, so programs with external calls are refused by both sides. rustc runs at opt-level 0.",
+    technique="TLA+ definitional evaluator checked with TLC; generated programs emitted as Rust, built with rustc, run and validated against the VM run with a lock-step trace specification",
+)
 NOT_YET = {}
 
 checks = []
